@@ -39,6 +39,8 @@ STAGES = {
             ('send-2x1-b1-multiline-ok', 'Session', cfg(MAXR='1', BUDGET='1', CAPSETS='{{}}', CLASSES='{"p5", "t4"}', VARIANTS='{"multiok"}')),
             # a server that offers PIPELINING: no message may be committed that is not one of the batch, whatever the client makes of the offer
             ('send-2x2-b1-pipelining-offered', 'Session', cfg(BUDGET='1', CAPSETS='{{"PIPELINING", "8BITMIME"}}', CLASSES='{"p5", "t4"}')),
+            # unencoded (8bit) bodies with lines that end in a bare CR and dots right behind them: whatever crosses the wire, the server commits the message
+            ('send-2x1-b1-bare-cr-bodies', 'Session', cfg(MAXR='1', BUDGET='1', ENC8='{TRUE}', CAPSETS='{{"8BITMIME"}}', CLASSES='{"p5"}', VARIANTS='{"crbody"}')),
             ('send-2x1-b2-transport', 'Session', cfg(MAXR='1', BUDGET='2', CAPSETS='{{}}', CLASSES='{"wfail", "cwfail", "p5"}')),
             ('send-2x1-b1-allrender', 'Session', cfg(MAXR='1', BUDGET='1', CAPSETS='{{}}',
                                                       RENDERKINDS='{"fail0", "failMid", "failEOF", "failAtt", "failAttEOF", "failSign", "failEmptyErr", "failShortErr", "failMidSigned"}')),
